@@ -26,7 +26,7 @@ theorem fromInt_signed_spec (n : Int) :
     refine ⟨pack n, ?_, (toInt_pack n h).2, (toInt_pack n h).1⟩
     simp [fromInt, h.1, h.2]
   · intro h
-    simp only [fromInt, Bool.false_and]
+    simp only [fromInt]
     split
     · next h' => exact absurd h' (by simpa using h)
     · rfl
@@ -127,21 +127,19 @@ theorem div_mod_identity (x y : Int) : y * Int.tdiv x y + Int.tmod x y = x :=
 
 theorem fromInt_unsigned_nat (n : Nat) (h : n < 65536) : fromInt (Int.ofNat n) true = .ok n := by
   unfold fromInt pack
-  simp only [Int.ofNat_eq_natCast, Bool.true_and, if_true]
+  simp only [Int.ofNat_eq_natCast, if_true]
   have h0 : ¬ ((n:Int) < 0) := by omega
   have h1 : -32768 ≤ (n:Int) ∧ (n:Int) ≤ 65535 := by omega
-  simp only [h0, decide_false, h1, and_self, if_true, if_false, Bool.false_eq_true]
+  simp only [h0, h1, and_self, if_true, if_false]
   congr 1
 
-theorem fromInt_unsigned_neg (n : Nat) (h : n < 65536) : fromInt (-(Int.ofNat n) - 1) true = .ok (65535 - n) := by
-  unfold fromInt pack
-  simp only [Int.ofNat_eq_natCast, Bool.true_and, if_true]
-  have h0 : (-(n:Int) - 1 < 0) := by omega
-  have h1 : -32768 ≤ -(n:Int) - 1 + 65536 ∧ -(n:Int) - 1 + 65536 ≤ 65535 := by omega
-  have h2 : ¬ (-(n:Int) - 1 + 65536 < 0) := by omega
-  simp only [h0, decide_true, h1, and_self, if_true, if_false, h2]
-  congr 1
-  omega
+/-- `(~x) & 0xffff` for a 16-bit pattern x -/
+theorem fromInt_unsigned_neg (n : Nat) (h : n < 65536) :
+    fromInt ((-(Int.ofNat n) - 1) % 65536) true = .ok (65535 - n) := by
+  have e : (-(Int.ofNat n) - 1) % 65536 = ((65535 - n : Nat) : Int) := by
+    simp only [Int.ofNat_eq_natCast]; omega
+  rw [e]
+  exact fromInt_unsigned_nat (65535 - n) (by omega)
 
 theorem and_spec (a b : Nat) (ha : a < 65536) (hb : b < 65536) :
     and_ a b = .ok (a &&& b) ∧ a &&& b < 65536 := by
